@@ -52,10 +52,13 @@ def hdr(tok):
     return {"g": 60, "v": v, "q": 6}
 
 
-def crob_header(index):
-    # g12v1, qualifier 0x17 (1-byte count, 1-byte index): code 3, count 1, on 100 ms, off 200 ms, status 0
-    data = bytes([index, 3, 1]) + (100).to_bytes(4, "little") + (200).to_bytes(4, "little") + bytes([0])
-    return {"g": 12, "v": 1, "q": 0x17, "count": 1, "data": data.hex()}
+def crob_header(index, wide=False):
+    # g12v1, qualifier 0x17 (1-byte count, 1-byte index) or 0x28 (2-byte count, 2-byte index):
+    # code 3, count 1, on 100 ms, off 200 ms, status 0
+    crob = bytes([3, 1]) + (100).to_bytes(4, "little") + (200).to_bytes(4, "little") + bytes([0])
+    if wide:
+        return {"g": 12, "v": 1, "q": 0x28, "count": 1, "data": (index.to_bytes(2, "little") + crob).hex()}
+    return {"g": 12, "v": 1, "q": 0x17, "count": 1, "data": (bytes([index]) + crob).hex()}
 
 
 def addressing(st, h):
@@ -112,7 +115,8 @@ def _steps_of(hist, name):
             elif f in ("select", "operate", "dop", "dopnr"):
                 st["fn"] = {"select": "select", "operate": "operate", "dop": "direct_operate",
                             "dopnr": "direct_operate_nr"}[f]
-                st["hdrs"] = [crob_header(1 if h.get("ob", "a") == "a" else 2)]
+                ob = h.get("ob", "a")
+                st["hdrs"] = [crob_header(2 if ob == "b" else 1, wide=(ob == "a2"))]
             elif f == "write_rst":
                 st["fn"] = "write"
                 st["hdrs"] = [{"g": 80, "v": 1, "q": 0, "start": 7, "stop": 7, "data": "00"}]
